@@ -9,7 +9,7 @@ ok=0; miss=0
 for d in seeded/*/ ; do
   name=$(basename "$d")
   case "$name" in *${1:-}*) ;; *) continue ;; esac
-  prop=$(jq -r '.property' "$d/meta.json" | cut -c1-3)
+  prop=$(jq -r '.check_with // .property' "$d/meta.json" | cut -c1-3)
   git -C /repo apply "/verif/$d/patch.diff" 2>/dev/null || { echo "SKIP  $name (patch does not apply)"; continue; }
   out=$(./vf check "$prop" --tier quick 2>&1); rc=$?
   git -C /repo checkout -- .
